@@ -251,15 +251,36 @@ func (bs *builderShape) equalReuses() []equalReuse {
 			// parked in a local slice indexed by list position (nil = not paired)
 			ia, ok := mu.Addr.(*ssa.IndexAddr)
 			if !ok {
+				// element struct built in place: m[i] = entry{obj: old[idx], found: true}
+				if fa, isFa := mu.Addr.(*ssa.FieldAddr); isFa {
+					ia, ok = fa.X.(*ssa.IndexAddr)
+				}
+			}
+			if !ok {
 				return
 			}
 			ms, isLocal := resolve(ia.X).(*ssa.MakeSlice)
 			if !isLocal {
 				return
 			}
+			vals := []ssa.Value{mu.Val}
+			// the element is a small struct assembled on the spot: look at its fields
+			if ld, ok := mu.Val.(*ssa.UnOp); ok && ld.Op == token.MUL {
+				if lit, ok := ld.X.(*ssa.Alloc); ok {
+					if st, ok := lit.Type().(*types.Pointer).Elem().Underlying().(*types.Struct); ok {
+						for k := 0; k < st.NumFields(); k++ {
+							if fv := structFieldOfAlloc(lit, k, 0); fv != nil {
+								vals = append(vals, fv)
+							}
+						}
+					}
+				}
+			}
 			for _, eq := range bs.eqIdx {
-				if bs.nonNeg(mu.Block(), eq) && bs.derivesFromIndex(mu.Val, eq, 0) {
-					out = append(out, equalReuse{idx: eq, at: mu, viaMap: ms})
+				for _, v := range vals {
+					if bs.nonNeg(mu.Block(), eq) && bs.derivesFromIndex(v, eq, 0) {
+						out = append(out, equalReuse{idx: eq, at: mu, viaMap: ms})
+					}
 				}
 			}
 		}
@@ -269,12 +290,37 @@ func (bs *builderShape) equalReuses() []equalReuse {
 
 // parkedLoad: v is an element read back from the local slice m (m[i]).
 func parkedLoad(v ssa.Value, m ssa.Value) bool {
-	u, ok := stripConv(v).(*ssa.UnOp)
-	if !ok || u.Op != token.MUL {
-		return false
+	// m[i], m[i].field, or a field of a local copy of m[i] (the slice may hold small structs {object, found})
+	for i := 0; i < 8 && v != nil; i++ {
+		switch x := stripConv(v).(type) {
+		case *ssa.Field:
+			v = x.X
+		case *ssa.UnOp:
+			if x.Op != token.MUL {
+				return false
+			}
+			switch a := x.X.(type) {
+			case *ssa.IndexAddr:
+				return resolve(a.X) == m
+			case *ssa.FieldAddr:
+				switch b := a.X.(type) {
+				case *ssa.IndexAddr:
+					return resolve(b.X) == m
+				case *ssa.Alloc:
+					v = allocSingleStore(b)
+				default:
+					return false
+				}
+			case *ssa.Alloc:
+				v = allocSingleStore(a)
+			default:
+				return false
+			}
+		default:
+			return false
+		}
 	}
-	ia, ok := u.X.(*ssa.IndexAddr)
-	return ok && resolve(ia.X) == m
+	return false
 }
 
 // donorOf analyses the statistic argument of a generator call: every alternative of the value (phi cases) is either nil
@@ -340,6 +386,12 @@ func foundInMap(b *ssa.BasicBlock, m ssa.Value) bool {
 				continue
 			}
 			if (isNilConst(bo.Y) && parkedLoad(bo.X, m)) || (isNilConst(bo.X) && parkedLoad(bo.Y, m)) {
+				return true
+			}
+		}
+		// ... or its "found" flag is set
+		for _, ft := range condFacts(b) {
+			if bt, ok := ft.Cond.Type().Underlying().(*types.Basic); ok && bt.Kind() == types.Bool && ft.Truth && parkedLoad(ft.Cond, m) {
 				return true
 			}
 		}
